@@ -5,7 +5,7 @@
 (* a float that is not within tolerance of any admissible rational (never equal to an        *)
 (* expected value).  The statistic "std" is observed as its square.                          *)
 (*   kind "apply": X, K (0/1), outs = sequence of [red, out]                                 *)
-(*   kind "mean" : X, passes, excl (sequence of values), out                                 *)
+(*   kind "mean" : X, passes, excl (sequence of values), out, only_excl (0/1, see MeanV)      *)
 (*   kind "conv" : X, Wt (rational weights), out                                             *)
 (*   kind "hot"  : X (integers), K (0/1), out, outneg (result on the negated raster), as     *)
 (*                 integer matrices; band = borderline half-width in thousandths of z        *)
@@ -35,10 +35,20 @@ ApplyV(c) ==
                ToString(<<p, c.outs[k].out[p[1]][p[2]], Red(red, buf)>>)>>
 
 \* ---------------------------------------------------------------- mean
+\* "a cell is passed through iff its value EQUALS (NaN = NaN) a listed value; every other cell is the window mean".
+\* Values that are not small rationals (0.1, -9999.9, 2^24+1 ...) are carried as the exact rationals they denote
+\* (the float bridge maps the observed float to that rational); only_excl = 1 restricts the verdict to the
+\* pass-through clause on rasters whose iterated means would not fit TLC's 32-bit integers: a cell excluded in
+\* the input keeps its value in every pass, so it must come out untouched.
 MeanV(c) ==
   LET exp == MeanIter(c.X, c.excl, c.passes)
-      bad == {p \in CellsOf(c.X) : c.out[p[1]][p[2]] # exp[p[1]][p[2]]}
+      bad == IF c.only_excl = 1
+             THEN {p \in CellsOf(c.X) : c.passes > 0 /\ Excluded(c.X[p[1]][p[2]], c.excl)
+                                        /\ c.out[p[1]][p[2]] # c.X[p[1]][p[2]]}
+             ELSE {p \in CellsOf(c.X) : c.out[p[1]][p[2]] # exp[p[1]][p[2]]}
   IN IF bad = {} THEN <<"ok", "">>
+     ELSE IF c.only_excl = 1 THEN <<"mean_excluded_passthrough",
+                                    ToString(<<First(bad), c.out[First(bad)[1]][First(bad)[2]], c.X[First(bad)[1]][First(bad)[2]]>>)>>
      ELSE LET p == First(bad) IN
           <<IF c.passes > 0 /\ Excluded(c.X[p[1]][p[2]], c.excl) THEN "mean_excluded_passthrough" ELSE "mean_window",
             ToString(<<p, c.out[p[1]][p[2]], exp[p[1]][p[2]]>>)>>
